@@ -117,6 +117,7 @@ class Den:
         self.accesses: list[Access] = []
         self.cast_identity = cast_identity
         self.inline_index_lambdas = True
+        self._lowered: dict = {}
         self.guards: list = []
         # reduction variables whose bounds are read from arrays (CSR rows)
         self.data_dependent_vars: list = []
@@ -228,9 +229,26 @@ class Den:
     def _nested(self, arr, idx_t):
         """A binding that is itself an IndexLambda: its own denotation at the
         subscript (the value of a node is a function of its children)."""
-        from pytato.array import IndexLambda
-        if not self.inline_index_lambdas or not isinstance(arr, IndexLambda):
+        from pytato.array import IndexLambda, InputArgumentBase
+        if not self.inline_index_lambdas:
             return None
+        if not isinstance(arr, IndexLambda):
+            # other intermediate node kinds: through the real lowering (whose
+            # correctness is the C02 contract), inputs stay uninterpreted
+            if isinstance(arr, InputArgumentBase) or \
+                    type(arr).__module__.startswith("pyvc"):
+                return None
+            k = id(arr)
+            if k not in self._lowered:
+                from pytato.transform.lower_to_index_lambda import \
+                    to_index_lambda
+                try:
+                    self._lowered[k] = (arr, to_index_lambda(arr))
+                except Exception:  # noqa: BLE001
+                    self._lowered[k] = (arr, None)
+            arr = self._lowered[k][1]
+            if arr is None:
+                return None
         saved = self.bindings
         self.bindings = arr.bindings
         try:
